@@ -1,5 +1,5 @@
 PROP = {
-    "lean_modules": ["GunYu.Props.C04"],
+    "lean_modules": ["GunYu.Props.C04", "GunYu.Props.C04X", "GunYu.Props.C04F", "GunYu.Props.C04L", "GunYu.Props.C04B"],
     "audit_namespaces": ["GunYu.Props.C04"],
     "required_theorems": [
         "GunYu.Props.C04.no_checkpoint_unless_terminated",
@@ -30,8 +30,57 @@ PROP = {
         "GunYu.Props.C04.bodyChan_agrees",
         "GunYu.Props.C04.chanFeed_is_feed",
         "GunYu.Props.C04.recorded_only_if_parsed_and_applied_chan",
+        # session 4 — extended grammar (LZF, streams, modules, module-aux, text floats, split hashes): Props/C04X.lean
+        "GunYu.Props.C04.itemX_good",
+        "GunYu.Props.C04.itemX_total",
+        "GunYu.Props.C04.parse_total_s",
+        "GunYu.Props.C04.truncation_errors_s",
+        "GunYu.Props.C04.done_ends_with_footer_s",
+        "GunYu.Props.C04.altered_breaks_footer",
+        "GunYu.Props.C04.alteration_detected_s",
+        "GunYu.Props.C04.alteration_is_error_s",
+        "GunYu.Props.C04.parse_total_x",
+        "GunYu.Props.C04.truncation_errors_x",
+        "GunYu.Props.C04.done_ends_with_footer_x",
+        "GunYu.Props.C04.alteration_detected_x",
+        "GunYu.Props.C04.alteration_is_error_x",
+        "GunYu.Props.C04.zero_footer_exception_x",
+        "GunYu.Props.C04.recorded_only_if_parsed_and_applied_x",
+        "GunYu.Props.C04.truncated_never_recorded_x",
+        "GunYu.Props.C04.altered_never_recorded_x",
+        "GunYu.Props.C04.chanFeedS_is_feed",
+        "GunYu.Props.C04.recorded_only_if_parsed_and_applied_chan_x",
+        # the LZF output buffer (D33)
+        "GunYu.Props.C04.lzf_buffer_follows_output",
+        "GunYu.Props.C04.lzf_buffer_linear_in_input",
+        "GunYu.Props.C04.lzf_ok_length",
+        # multiplicity and the global lane: Props/C04F.lean
+        "GunYu.Props.C04.applied_at_most_once",
+        "GunYu.Props.C04.checkpoint_exactly_once",
+        "GunYu.Props.C04.ok_exactly_once",
+        "GunYu.Props.C04.recorded_exactly_once_x",
+        "GunYu.Props.C04.withGlobal_route",
+        "GunYu.Props.C04.global_lane_routing",
+        "GunYu.Props.C04.no_checkpoint_unless_terminated_global",
+        "GunYu.Props.C04.recorded_only_if_parsed_and_applied_global",
+        # loops driven by count fields: Props/C04L.lean
+        "GunYu.Props.C04.count_loop_linear",
+        "GunYu.Props.C04.walked_count_is_backed",
+        "GunYu.Props.C04.pel_loop_linear",
+        "GunYu.Props.C04.consumer_pel_loop_linear",
+        "GunYu.Props.C04.string_loop_linear",
+        # the LZF decision of the frame model is the decision of C03's content-producing decoder: Props/C04B.lean
+        "GunYu.Props.C04.lzf_decision_is_full_buffer_decision",
+        "GunYu.Props.C04.lzf_frame_decision",
     ],
-    "expected_facts": {},
+    "expected_facts": {
+        # session 4 (harness/extract/c04.go): source pins of what Model/RdbLzf.lean / Model/RdbFrameX.lean transcribe by hand
+        'c04_lzfDecompress': '{ defer func() { if x := recover(); x != nil { err = errors.Errorf("decompress exception: %v", x) } }() if outlen < 0 || outlen > len(in)*264 { return nil, errors.Errorf("decompress length %d is impossible for %d compressed bytes", outlen, len(in)) } n := outlen if n > readBytesStep { n = readBytesStep } out = make([]byte, n) i, o := 0, 0 for i < len(in) { ctrl := int(in[i]) i++ if ctrl < 32 { out = lzfRoom(out, o+ctrl+1, outlen) for x := 0; x <= ctrl; x++ { out[o] = in[i] i++ o++ } } else { length := ctrl >> 5 if length == 7 { length = length + int(in[i]) i++ } ref := o - ((ctrl & 0x1f) << 8) - int(in[i]) - 1 i++ out = lzfRoom(out, o+length+2, outlen) for x := 0; x <= length+1; x++ { out[o] = out[ref] ref++ o++ } } } if o != outlen { return nil, errors.Errorf("decompress length is %d != expected %d", o, outlen) } return out, nil }',
+        'c04_lzfRoom': '{ if need <= len(out) || need > outlen { return out } n := need + readBytesStep if n > outlen { n = outlen } return append(out, make([]byte, n-len(out))...) }',
+        'c04_consts': {'maxBinEntryBuffer': '16 * 1024 * 1024', 'readBytesStep': '64 * 1024 * 1024'},
+        'c04_readBytesP_args': ['16', '16', '8'],
+        'c04_hash_chunk_cond': 'hp.buf.Len() > maxBinEntryBuffer && i != int(n-1)',
+    },
     "harness": [
         {"name": "C04", "pkg": "./syncer/", "test": "TestVerifC04", "timeout_quick": "15m", "timeout_thorough": "60m"},
     ],
@@ -87,27 +136,67 @@ PROP = {
             "100 MiB .. 4 GiB over <= 100 bytes) and the real LZF string reader (declared length vs compressed bytes, incl. 2^32-1 "
             "over 16.3 MB in a fresh worker) in the worker child: ok/err + length on success against Model/RdbAlloc (op c04alloc), "
             "len / cap / allocated bytes against the property's bounds (monitor alloc-unbounded). "
+            "Session 4: (x1) the EXTENDED frame model (Model/RdbFrameX.parseX) against the real parser, NO Go-side walker deciding "
+            "'inside the model' any more — every outcome is compared: 6 generated files that CONTAIN the constructs (LZF strings as "
+            "value / key / list element, a hash split into chunks by a lowered maxBinEntryBuffer, a text-float sorted set, zset2, "
+            "int-encoded set members; streams of all four layouts 15/19/21/26 with group, PELs, consumer, IDMP; a module value with "
+            "every opcode + an unknown one + an LZF field; a module-aux section parsed with and without failOnModuleAux): every "
+            "truncation, every position overwritten with the 14 length/count/encoding-making values + 4 XOR masks + seed-chosen "
+            "values (thorough: all 255 others), 120 (thorough 1500) seeded alterations per file (two bytes, byte removed / inserted, "
+            "run duplicated), the whole channel transcript on the intact file / cuts / altered footers; strconv.ParseFloat's verdict "
+            "on every text of the input that could be a float travels with the op (the model's only parameter). (x2) the real "
+            "LZF string reader vs Model/RdbLzf.run: ok/err, output length, and the bytes it allocated "
+            "(runtime.MemStats.TotalAlloc) judged by the MODEL's requests (first make + per growth a chunk and a re-allocation "
+            "of at most twice the need) + compressed bytes + 256 KiB: valid / damaged / over- and under-declaring inputs, 12 "
+            "seed-drawn streams, 1 MiB declaring 256 MiB, an input whose output crosses the 64 MiB step (thorough: two steps; "
+            "past one step then declaring 1 GiB; 4 MiB declaring 1 GiB). (x3) the pipeline on an LZF + split-hash file "
+            "(threshold 12 bytes): every truncation, 3 overwritten values per position. (3)(3b) error replies now rotate through "
+            "14 real refusal texts incl. the 'temporarily unavailable' families (LOADING, BUSY, TRYAGAIN, CLUSTERDOWN, MISCONF, "
+            "NOAUTH, MOVED, ASK, NOREPLICAS, MASTERDOWN), the keyExists policy rotates replace / ignore / error over the scenarios, "
+            "and in (3b) every selected request of the 260-command value fails once with a family text under EACH policy (the "
+            "target healthy afterwards); cluster bidirectional scenarios are tied to the event system with the global lane (c04fang). "
+            "NOTE on the tie c04fan[g] scen=fail:k: the model answers res=err for ANY single refused request, whatever the reply text "
+            "(LOADING, BUSY, MOVED ...): that is the behaviour of the code today and STRICTER than C04 - a correct transient retry "
+            "(one that re-applies the whole entry) would DIFF. A DIFF alone is printed as 'no-failing-input-found' (tie to be "
+            "revisited), never as a violation with a replay: violations with replay come only from the Go monitors "
+            "(incomplete-reported-ok / incomplete-checkpointed judge the VALUES on the target, not the error). "
+            "(x1) steered values in every tier: each position is also overwritten with its neighbours' values and with its own +-1 "
+            "(inlen := outlen, count +- 1 ...), an LZF string with inlen == outlen intact and with a reference before the start, "
+            "and a stream with a count >= 2^63 (0x81 0x80 ...) at each of the four int() loop counts. "
             "distinct_nontrivial = distinct (file, position) alteration rows + distinct fan-out scenario points",
     "trusted": [
-        "RDB framing (opcodes, length forms, string forms, per-type value layout) as transcribed in Model/RdbFrame.lean and as "
-        "written by the harness's snapshot writer pkg/vfc20; CRC64 as in Model/Rdb/Crc64.lean (table regenerated; C03's crc64TabStep_eq_specStep is used by Proofs/Crc64Burst.lean)",
+        "RDB framing (opcodes, length forms, string forms, per-type value layout) as transcribed in Model/RdbFrame.lean / "
+        "Model/RdbFrameX.lean (LZF, streams, modules, module-aux, text floats, chunk continuation) / Model/RdbLzf.lean and as "
+        "written by the harness's snapshot writer pkg/vfc20 and the assembler of vf_c04x_test.go; CRC64 as in Model/Rdb/Crc64.lean (table regenerated; C03's crc64TabStep_eq_specStep is used by Proofs/Crc64Burst.lean)",
         "goroutine scheduling inside testing/synctest; the target double",
+        "strconv.ParseFloat (Go standard library): the model's float predicate IS its verdict (computed by the harness with "
+        "strconv itself, carried in the op); runtime.MemStats.TotalAlloc as the measure of what a reader allocated",
     ],
     "assumptions": [
         "fan-out model: distributor receive+send is one step; applying an entry is atomic; a failing worker drops its entry - each "
         "coarser than the code (more behaviours), so the safety theorem carries over",
-        "frame model: values below the 16 MiB chunk threshold; outcome 'unsup' (LZF string, text-float zset, stream, module, "
-        "module-aux on the parse path) is outside the theorems and only monitored on the real code by the sweep",
-        "standalone target (the cluster-only bisync global lane for functions/AUX is not modelled)",
+        "frame model, session 4: the extended grammar (parseX) has NO 'unsup' outcome left except through its parameter "
+        "floatOk (a text score of a type-3 sorted set that strconv.ParseFloat's verdict is not supplied for); the chunk "
+        "threshold is a parameter (the theorems hold for every value, the tie runs with 10 / 12 bytes and the production "
+        "16 MiB); the OLD grammar (parse, the theorems without suffix) keeps 'unsup' for LZF, text floats, streams, modules. "
+        "Chunk continuation exists in the code for RDB type 4 only (HashPaser): that is what is modelled",
+        "global lane (cluster bidirectional replay): modelled as worker number n of the same event system (withGlobal) — its "
+        "loop has the shape of the keyed workers' (one entry at a time, error of a failed entry, nil on closed pipe, nil on "
+        "ctx.Done()); that ONE global entry is replayed to EVERY primary (execBisyncRdbGlobalUnit) is below the model's "
+        "granularity (applying an entry is atomic) — the harness monitors it (script loaded on every primary)",
         "rdb.ParseRdb sends Done or Err before closing its channel (guaranteed by `defer util.Xrecover(&err)` in Loader.Next; the "
         "fan-out theorem no_checkpoint_unless_terminated makes the other case explicit: a channel closed without terminal IS taken "
         "for a complete snapshot by distributeTask (`!ok -> return nil`) - a hardening candidate; the harness reports it as "
         "'parser-no-terminal' / 'crash')",
-        "frame theorems *_gen hold for ANY item reader that is sequential (reads only forward through the tee'd reader), consumes its "
-        "opcode and reports EOF only for byte 0xFF - trusted for the real ReadBuffer of the encodings outside the modelled grammar "
-        "(LZF, text floats, streams, modules, chunk continuation); for the modelled grammar it is proved (item_good)",
-        "fan-out conclusion is membership (every entry of the snapshot is among the applied ones): with entries = positions of the "
-        "snapshot that is 'every entry applied'; multiplicity is not stated",
+        "frame theorems *_gen / *_s hold for ANY (stateful) item reader that is sequential (reads only forward through the tee'd "
+        "reader), consumes at least a byte and reports EOF only for byte 0xFF - PROVED for the extended grammar incl. LZF, "
+        "streams, modules, module-aux, text floats and the chunk continuation (itemX_good); what remains trusted of the real "
+        "Loader.Next is that it IS that grammar (the x1 sweep compares every outcome)",
+        "fan-out, session 4: multiplicity is stated (checkpoint_exactly_once: the applied entries are a permutation of the "
+        "snapshot's entries; applied_at_most_once in every state) at the model's granularity: ONE apply step per entry. The code "
+        "applies an entry as several commands (probe, DEL, RESTORE or n pipelined commands); 'the entry failed' means its "
+        "worker returns an error and the replay is not recorded - what a failed entry has already written to the target is "
+        "not undone and not modelled (the next full sync rewrites it: keyExists policies, C20)",
         "MemoryReader (memory channel) is not driven by the harness (closes its pipe after copyFunc, by reading)",
         "D19's contract 'the reader ends exactly at the snapshot' holds for the store pump (writes `size` bytes, closes) and the memory "
         "reader; `cmd=rdb` (documented input: an RDB file) on an appendonly file with an RDB preamble now prints / loads every key of "
@@ -115,13 +204,33 @@ PROP = {
         "silently, ignoring the commands behind the preamble - accepted, not a supported input",
     ],
     "partial": [
-        "memory / wall-clock on damaged input: proved (alloc_bounded_partial, Model/RdbAlloc.lean): ReadBytes (D22) returns at most "
+        "memory on damaged input, session 4: the LZF output buffer after f4eb5a7 IS modelled (Model/RdbLzf.lean: lzfRoom's growth "
+        "policy in the decompression loop) and bounded: lzf_buffer_follows_output - when lzfDecompress stops, by success or any "
+        "error, len(out) <= produced + 264 + step, produced <= 264 x compressed bytes, len(out) <= declared, and with an append "
+        "that at most doubles no single request exceeds 2 x (produced + 264 + step): no bound mentions the declared length "
+        "(lzf_buffer_linear_in_input - NOTE: that input-only corollary is the GUARD outlen <= 264 x len(in) restated and held "
+        "before the D33 fix too; the content of the fix is lzf_buffer_follows_output, the bound by the bytes produced); the growth policy does not change the decision: the walk accepts exactly what C03's "
+        "full-buffer decoder Model/Rdb/Str.lzfDecompress accepts (lzf_decision_is_full_buffer_decision). Tied: op c04lzfx/c04lzfseg (x2) compares ok/err + length and judges the measured "
+        "allocation by the model's own request sum. The constant factor 2 of the re-allocation bound is an assumption on Go's "
+        "append (GrowOK), so a regression that allocates less than ~2 x (produced + step) beyond the model is not seen",
+        "loops driven by unguarded counts, session 4 (Props/C04L.lean): proved for EVERY round reader that reads >= k bytes when "
+        "it succeeds: completed rounds x k <= bytes present, whatever the count (count_loop_linear); a count a walk accepted was "
+        "backed by k bytes per unit (walked_count_is_backed - about the walk; it carries over to ExecCmd only where ExecCmd reads "
+        "the count the same way: numConsumer is 32-bit in ReadBuffer and 64-bit in ExecCmd, and counts >= 2^63 skip ReadBuffer's "
+        "int(n) loops but not ExecCmd's uint64 loops - there only count_loop_linear applies); instances: global PEL (25 bytes/round: <= 2 x bytes/25 map "
+        "insertions, pel_loop_linear), consumer PEL (16), strings (1). All count loops of the ReadBuffer walks are inside the "
+        "extended frame model (parse_total_x: the whole parse ends within |input| rounds). NOT proved: the rounds of "
+        "StreamParser.ExecCmd that go through types.Listpack.Next (entry-num-fields: 2 slots appended per round) - that a "
+        "round advances by >= 1 byte or panics is C03's listpack model and the D23 repair, not re-proved here; ExecCmd compares "
+        "pelSize as uint64 where ReadBuffer's loop uses int(n) (a count >= 2^63 makes ReadBuffer skip its loop and ExecCmd run "
+        "until the bytes end: bounded by the same lemma, ends in an error); ReadBytesP(n) stays unguarded (callers pass 16 / 8)",
+        "memory / wall-clock on damaged input, earlier: proved (alloc_bounded_partial, Model/RdbAlloc.lean): ReadBytes (D22) returns at most "
         "avail + step bytes (readBytes_alloc_bounded) and - under the stated assumption on Go's append (GrowOK: a re-allocation at "
         "most doubles) - no single request it makes of the allocator (initial capacity, chunk, re-allocation) exceeds 2 x (avail + "
         "step) (readBytes_requests_bounded); the stream master entry's field array (D32) is bounded by the listpack's bytes; the "
         "LZF guard admits a declared length up to min(264 x compressed bytes, 2^32 - 1) (lzfAlloc32_bounded) - which let 16.3 MB "
         "of input ask for 4 GiB in one piece: D33, fixed f4eb5a7: the output buffer now follows the bytes really produced, one step "
-        "ahead (not modelled in Lean; section 3c measures it). Tie (3c, worker child): ok/err and the length on success vs the model; "
+        "ahead (modelled since session 4, see above; section 3c keeps its coarse monitor). Tie (3c, worker child): ok/err and the length on success vs the model; "
         "MONITORS on the real readers: len <= avail + step, cap <= 2 x (avail + step), bytes allocated (runtime.MemStats.TotalAlloc) "
         "<= 8 x (avail + step) + 16 MiB, LZF: bytes allocated <= 1024 x compressed bytes + 8 MiB, incl. lengths between one step "
         "and 4 GiB over a nearly empty source (a regression there does not kill the child). NOT proved / not modelled: that these "
@@ -133,19 +242,30 @@ PROP = {
         "allocator's rounding; wall-clock time: parse_total bounds the steps of the frame MODEL by the input length, a value "
         "decoder's loop that does not advance (D23) is outside it - child processes with an address-space limit and watchdogs carry that part",
         "real goroutine interleavings are explored by synctest schedules and repeated runs, not exhaustively",
+        "observation outside C04's letter: after an aborted sendRdb (target error, cancellation) the rdb.ParseRdb goroutine stays "
+        "blocked for ever in `pipe <- entry` when the rest of the snapshot does not fit rdbPipe (ParseRdb has no context, nobody "
+        "drains the channel): a goroutine + its buffers leak per aborted replay. The harness counts it "
+        "(observed_parser_goroutine_left_blocked_after_abort, ~200 per quick run) and does not report it: the replay IS reported "
+        "failed and nothing is recorded. Repair would be small (ParseRdb(ctx, ...) with select on ctx.Done(), or drain in sendRdb); "
+        "not applied, not a finding of this property",
+        "exactly-once (checkpoint_exactly_once, applied_at_most_once) and the global lane's routing (global_lane_routing) are "
+        "theorems about the event system; the tie (c04fan / c04fang) compares result and checkpoint of the scenario runs, not the "
+        "multiset of applied entries - on the real code multiplicity is seen only through the Go monitor's comparison of the final "
+        "VALUES on the target (a list element pushed twice differs; a SET applied twice does not)",
         "Part 2 -> Part 1 is a theorem (recorded_only_if_parsed_and_applied[_chan], truncated_never_recorded, altered_never_recorded); "
         "it rests on the transcript model of ParseRdb's goroutine (Model/RdbFeed.lean: Err / Done / after a footer error Err AND "
         "THEN Done - rdb.go falls through; chanFeed_is_feed: an instance of `feed`, so never recorded), which is now TIED: op c04chan "
         "compares the whole channel transcript of the real ParseRdb (entries before the first terminal, every terminal in order, "
         "closed) with the model on the intact files, cuts, every altered footer / EOF-opcode byte and bytes appended behind the footer "
         "(Err-then-Done observed on the real code, monitors 'parser-no-terminal' and 'anything after Done'). How much of real "
-        "snapshots the theorem speaks about: in its decidable instance (RdbFrame.item) only snapshots WITHOUT LZF strings, streams, "
-        "modules and text-float sorted sets (chanWith = none for them; with rdbcompression on, every compressible string of >= 20 "
-        "bytes is LZF, so that excludes most production snapshots); for those the generic-reader statement applies, whose "
-        "hypothesis GoodItem of the real Loader.Next is trusted (listed) - the damaged-input sweeps of 2b/2c (streams, LZF, "
-        "fixtures) are what covers them",
-        "alteration_is_error_gen is instantiated for the modelled grammar with 'outside the model' read as an error (itemT); for the "
-        "real Loader.Next GoodItem / Total are trusted",
+        "snapshots the theorem speaks about: since session 4 the decidable instance is the extended grammar "
+        "(recorded_only_if_parsed_and_applied_x / _chan_x, truncated_never_recorded_x, altered_never_recorded_x, "
+        "recorded_exactly_once_x): snapshots with LZF strings, streams, modules, module-aux and split hashes are inside; "
+        "text-float sorted sets are inside for every float predicate (altered_never_recorded_x needs one that decides: "
+        "strconv.ParseFloat does); the value decoders that run in the workers (ExecCmd) are C03's subject, here they are "
+        "'applying an entry' (may fail)",
+        "alteration_is_error_gen is instantiated for the OLD grammar with 'outside the model' read as an error (itemT); "
+        "alteration_is_error_x is the statement for the extended grammar (no such reading needed)",
     ],
 }
 
@@ -160,10 +280,16 @@ MANIFEST = {
             "refused unless it becomes all-zero ('checksum disabled'); (3) composition: from the BYTES of the input to the checkpoint - "
             "for every input, worker count, routing and schedule the checkpoint is written / nil returned only if the input parses to "
             "Done and every entry was applied; a truncated or (checksummed, one byte) altered snapshot is recorded in NO schedule; "
-            "(4, partial) the three buffers pkg/rdb sizes by an input field are bounded by the bytes actually present. Tie: exhaustive truncation/XOR sweep of small files "
+            "(4, partial) the three buffers pkg/rdb sizes by an input field are bounded by the bytes actually present; "
+            "(session 4) all of (2)(3) for the EXTENDED grammar - LZF strings, streams, modules, module-aux, text floats, hashes split "
+            "into chunks - with the item reader's sequentiality PROVED; the LZF output buffer follows the bytes produced (never the "
+            "declared length); exactly-once: the checkpoint is written only when the applied entries are a permutation of the "
+            "snapshot's entries, also with the cluster-only global lane; count-driven loops complete at most bytes/k rounds. Tie: exhaustive truncation/XOR sweep of small files "
             "through the real parser (vs model) and the real SendRdb against the target double with fault injection, cancellation at "
             "every request and the hold-cancel-release schedule under synctest; independent Go monitor of the property.",
     "note": "trusted: Lean kernel, RDB framing transcription, target double, synctest; models of the REPAIRED code (D6, D19 fixed; D22, D23, D26, D32, D33 are crash/hang repairs outside the models)",
     "technique": "Lean 4 proof (12-clause inductive invariant over an event system; sequential-reader combinator lemmas) + exhaustive "
-                 "small-scope differential correspondence + fault/cancellation schedule exploration + monitor",
+                 "small-scope differential correspondence + fault/cancellation schedule exploration + monitor; session 4: stateful "
+                 "sequential readers (chunk continuation), fuel-independent loop combinator (module opcodes), permutation invariant "
+                 "(exactly-once), refinement by instance (global lane = worker n), content-free walk of the LZF loop with its buffer",
 }
